@@ -11,10 +11,12 @@ if not os.path.isdir(SCRATCH):
     sh(f'git -C /repo worktree add --detach {SCRATCH} HEAD')
 only = sys.argv[1:]
 # extra properties whose checks are also expected to notice a change
-also = {'C08-m2': ['C06'], 'C04-m2': ['C06'], 'C11-m1': ['C09'], 'C03-m2': ['C13'], 'C01-m1': ['C13'], 'C15-m2': ['C01'], 'C01-m2': ['C12'], 'C02-m2': ['C01']}
+also = {'C08-m2': ['C06'], 'C04-m2': ['C06'], 'C11-m1': ['C09'], 'C03-m2': ['C13'], 'C01-m1': ['C13'], 'C15-m2': ['C01'], 'C01-m2': ['C12'], 'C02-m2': ['C01', 'C03'], 'C04-r2m1': ['C06', 'C08'], 'C04-r2m2': ['C12'], 'C19-r2m2': ['C06'], 'C12-r2m1': ['C19'], 'C07-r2m2': ['C13'], 'C01-r2m1': ['C13'], 'C11-r2m1': ['C09'], 'C11-r2m2': ['C17'], 'C03-r2m1': ['C02'], 'C02-r2m2': ['C03'], 'C15-r2m2': ['C13']}
 for d in sorted(glob.glob('/verif/seeded/*')):
     sid = os.path.basename(d)
     if only and sid not in only:
+        continue
+    if os.environ.get('SKIP_DONE') and os.path.exists(d + '/meta.json') and json.load(open(d + '/meta.json')).get('detected'):
         continue
     prop = sid.split('-')[0]
     sh(f'git -C {SCRATCH} checkout -q -- . && git -C {SCRATCH} checkout -q --detach main')
@@ -23,7 +25,7 @@ for d in sorted(glob.glob('/verif/seeded/*')):
         print(sid, 'PATCH DOES NOT APPLY'); continue
     results = []
     for p in [prop] + also.get(sid, []):
-        for tier in ('quick', 'thorough'):
+        for tier in os.environ.get('TIERS', 'quick,thorough').split(','):
             t0 = time.time()
             r = sh(f'cd /verif && timeout 2400 ./bin/vfrun check -prop {p} -tier {tier}', env=env)
             out = r.stdout
